@@ -21,7 +21,7 @@ META = {
                  'length 0..5 forked symbolically, sequence elements unbounded symbolic integers; DSSP strings: full '
                  '11-letter alphabet len <= 2, class alphabet {H,G,C,B} len <= 6, run-length family C^a H^L C^b H^M C^c '
                  'with L, M <= 10',
-        'thorough': '<= 4 molecules with 1-3 residues, interleaved atom order; class alphabet len <= 8, L, M <= 14',
+        'thorough': '<= 4 molecules with 1-3 residues, interleaved atom order; class alphabet len <= 7, L, M <= 14',
     },
     'stubs': ['none (logging untouched: only LOGGER.debug with a constant message is reachable)'],
     'assumptions': ['residue identity (chain, resid, resname) is concrete because make_residue_graph hashes it',
@@ -295,9 +295,9 @@ def cases(tier):
     nres_opts = (1, 2) if tier == 'quick' else (1, 2, 3)
     for m in range(0, maxm + 1):
         for shape in itertools.product(nres_opts, repeat=m):
-            if tier == 'thorough' and m == 4 and 3 in shape and shape.count(3) > 1:
+            if tier == 'thorough' and m == 4 and 3 in shape:
                 continue
-            variants = [(2, False)] if tier == 'quick' else [(2, False), (2, True), (1, False)]
+            variants = [(2, False)] if tier == 'quick' else ([(2, False), (2, True)] if m < 4 else [(2, m % 2 == 0)])
             for natoms, interleave in variants:
                 out.append({'fn': 'check_run_system', 'part': {'mols': list(shape), 'natoms': natoms, 'interleave': interleave},
                             'label': 'run_system[%s a%d i%d]' % (','.join(map(str, shape)) or '-', natoms, interleave),
@@ -309,7 +309,7 @@ def cases(tier):
     for n in (0, 1, 2):
         out.append({'fn': 'check_convert_str', 'part': {'len': n, 'alphabet': ALPHABET}, 'label': 'convert[full,len%d]' % n,
                     'timeout': 200})
-    maxlen = 6 if tier == 'quick' else 8
+    maxlen = 6 if tier == 'quick' else 7
     for n in range(3, maxlen + 1):
         plen = max(0, n - 4)
         for prefix in itertools.product('HGCB', repeat=plen):
